@@ -141,7 +141,24 @@ impl Property for C15 {
         // magnitude regime: INT values near 1e9 (squares sum beyond 2^53 but within i64) mixed with small ones
         let big_n = rng.chance(1, 8);
         let split_law = rng.chance(1, 3);
-        let query = if big_real {
+        let bool_only = !huge && !big_real && rng.chance(1, 12);
+        let query = if bool_only {
+            // only BOOL_AND / BOOL_OR in the select list (they saturate), other aggregates in HAVING only
+            let mut q = sqlgen::Query::default();
+            q.aggregate = true;
+            let c = rng.range(0, 2);
+            q.projections = match rng.below(3) {
+                0 => vec![format!("BOOL_OR(n > {}) AS any_big", c)],
+                1 => vec![format!("BOOL_AND(n >= {}) AS all_big", c)],
+                _ => vec![format!("BOOL_OR(n > {}) AS any_big", c), format!("BOOL_AND(n >= {}) AS all_big", c)],
+            };
+            if rng.chance(1, 3) {
+                q.group_by = vec!["k".to_owned()];
+                q.projections.push("k".to_owned());
+            }
+            q.having = Some(match rng.below(3) { 0 => format!("COUNT(*) >= {}", rng.range(2, 4)), 1 => format!("SUM(n) > {}", c), _ => format!("COUNT(n) >= {}", rng.range(1, 3)) });
+            q
+        } else if big_real {
             // only aggregates whose result is exact for these inputs (no sums of squares)
             let mut q = sqlgen::Query::default();
             q.aggregate = true;
@@ -178,6 +195,11 @@ impl Property for C15 {
         } else {
             sqlgen::gen_aggregate(rng, &cfg, &AggCfg { order_insensitive: true, allow_join: true, max_aggs: 5 })
         };
+        let mut query = query;
+        if !split_law && !huge && rng.chance(1, 6) {
+            // groups come out in key order, so the first n groups do not depend on arrival order either
+            query.limit = Some(rng.range(1, 3) as usize);
+        }
         let joined: Vec<Vec<u8>> = if query.join.is_some() { (0..rng.range(1, 8)).map(|_| sqlgen::gen_joined_line(rng, lc.keys.min(3), 10).into_bytes()).collect() } else { Vec::new() };
         let n_lines = if huge { rng.range(4100, if thorough { 12000 } else { 5400 }) as usize } else if large { rng.range(18, if thorough { 60 } else { 40 }) as usize } else { rng.range(1, 10) as usize };
         let mut specs: Vec<sqlgen::LineSpec> = (0..n_lines).map(|_| sqlgen::gen_line_spec(rng, &cfg, &lc)).collect();
@@ -395,7 +417,8 @@ impl Property for C15 {
                 out.nontrivial.push(fnv_mix(content_hash, fnv(format!("{:?}", order).as_bytes())));
             }
             // the same arrival order through the follow path: the last table on screen
-            if oi < follow_orders && reference.status == Status::Ok && joined.is_none() {
+            // (follow mode gives LIMIT on an aggregate another meaning - it stops following - so not with LIMIT)
+            if oi < follow_orders && reference.status == Status::Ok && joined.is_none() && !upper.contains(" LIMIT ") {
                 let ls: Vec<Vec<u8>> = order.iter().map(|i| lines[*i].clone()).collect();
                 let mut f = WorldSpec::new(&defs, &stmt, Mode::FollowExec { head: true });
                 f.files.push((FOLLOW_PATH.to_owned(), Vec::new()));
@@ -507,6 +530,8 @@ impl Property for C15 {
         out.probe("join_statement", joined.is_some() as u64);
         out.probe("large_more_than_16_lines", (n > 16) as u64);
         out.probe("huge_more_than_4096_values_in_a_group", (n > 4096) as u64);
+        out.probe("bool_aggregates_only_in_select_list", (upper.contains("BOOL_") && !upper.contains("COUNT(*) AS") && upper.contains(" HAVING ")) as u64);
+        out.probe("with_limit", upper.contains(" LIMIT ") as u64);
         out.probe("identical_adjacent_lines", lines.windows(2).any(|w| w[0] == w[1]) as u64);
         out.probe("pattern_from_column", stmt.contains("regexp_matches(") as u64);
         out.probe("real_integer_above_2_pow_53", specs.iter().any(|s| s.r.as_ref().map(|r| r.len() >= 16 && !r.contains('.')).unwrap_or(false)) as u64);
